@@ -12,9 +12,14 @@ Theorems about `Ecal.DebugCmd` (model of `interpreter/debug_cmd.go` and the comm
 namespace Ecal.Props.C16
 open Ecal.DebugCmd
 
-/-- The model dispatches on exactly the keys of `DebugCommandsMap` (regenerated from the Go
-    source on every run), bound to the same Go types. -/
-theorem vocabulary_matches : Ecal.Gen.C16.commands.map (fun e => (e.1, e.2.1)) = vocabulary := by decide
+/-- The model dispatches on exactly the command WORDS of `DebugCommandsMap` (regenerated from
+    the Go source on every run; the Go type names bound to them are not compared). -/
+theorem vocabulary_matches : Ecal.Gen.C16.commands.map (fun e => e.1) = vocabulary.map (fun e => e.1) := by decide
+
+/-- `HandleInput` compares the first word of a line with no literal of its own: the table is
+    its whole vocabulary (a word it dispatches on besides the table would be a command the model
+    does not have; the generator sends every such word as well). -/
+theorem handleinput_has_no_own_words : Ecal.Gen.C16.dispatchLiterals = [] := by decide
 
 /-- The argument-count tests, as the extractor EVALUATES them for 0..5 arguments (whatever
     their source text), do not contradict `Cmd.rejects`. -/
